@@ -172,6 +172,49 @@ def closed_forms(env, model, **cfg):
         else:
             w = np.abs(sig).reshape(-1, 1) * np.ones(vm.shape)
         env.eq("C15", "pure bending (tube): von Mises == M c / I == E r |dtheta| / L", vm, w)
+        return
+    # wingbox, bending: Euler-Bernoulli fields on the straight spar (local axes y_loc = -z, z_loc = -x; right-handed rotations,
+    # u_y' = r_z, u_z' = -r_y as in the element stiffness).  Constant curvature kap about one local axis: the outer-fibre
+    # stresses are E kap h of the element's own section heights, the shear term vanishes
+    kap = env.var("kap", ())
+    sj = nodes[:, 1] - nodes[0, 1]                  # arc length from the first node
+    tssf = s["strength_factor_for_upper_skin"]
+
+    def absvec(v):
+        if env.sym:
+            out = np.empty(len(v), dtype=object)
+            for e in range(len(v)):
+                out[e] = abs(v[e])
+            return out
+        return np.abs(v)
+
+    def cols(*c):
+        return xp.stack(list(c), axis=1)
+    i = dict(base)
+    i["disp"] = cols(zero, zero, -kap * sj * sj / 2, -kap * sj, zero, zero)       # curvature about z_loc (vertical bending)
+    vm = h.compute(i)["vonmises"]
+    ek = E * kap * (0 * L + 1)
+    A_ = absvec
+    env.eq("C15", "pure vertical bending (wingbox): top / bottom skin stress == E |curvature| h_top / h_bottom (M h / I), spars unstressed",
+           vm, cols(A_(ek * base["htop"]) / tssf, A_(ek * base["hbottom"]), 0 * ek, 0 * ek))
+    i = dict(base)
+    i["disp"] = cols(kap * sj * sj / 2, zero, zero, zero, zero, -kap * sj)        # curvature about y_loc (in-plane bending)
+    vm = h.compute(i)["vonmises"]
+    env.eq("C15", "pure in-plane bending (wingbox): rear / front spar stress == E |curvature| h_rear / h_front in the four combinations",
+           vm, cols(A_(ek * base["hrear"]) / tssf, A_(ek * base["hfront"]), A_(ek * base["hfront"]), A_(ek * base["hrear"]) / tssf))
+    # transverse shear: cubic deflection u_y = a s^3 (end-loaded cantilever): V Q / (I t) == E u_sss Q / (2 t) on the two spar
+    # combinations (no torsion, no in-plane bending, no axial strain there)
+    i = dict(base)
+    i["disp"] = cols(zero, zero, -kap * sj ** 3, -3 * kap * sj * sj, zero, zero)
+    vm = h.compute(i)["vonmises"]
+    tau = absvec(E * 6 * kap * base["Qz"] / (2 * base["spar_thickness"]))
+    if env.sym:
+        rt3 = np.empty(len(tau), dtype=object)
+        for e in range(len(tau)):
+            rt3[e] = xp.sqrt(3 * tau[e] * tau[e])
+    else:
+        rt3 = np.sqrt(3) * tau
+    env.eq("C15", "transverse shear (wingbox, cubic deflection): spar combinations == sqrt(3) E |third derivative| Q / (2 t)", vm[:, 2:], cols(rt3, rt3 / tssf))
 
 
 @job("c15.SectionTube_Failure", ("C15",), cfgs=product([dict(nx=2, ny=3)], [dict(symmetry=True, side="left")], [dict(model="tube"), dict(model="wingbox")]),
